@@ -8,7 +8,7 @@ from .. import terms as tm
 from ..interp import Event, Interp, Result
 from ..lib import arg_of, fmt, is_call_to, sweep
 from ..progdb import AnalysisError, Function
-from ..terms import T
+from ..terms import T, const
 from .c17 import find_sinks
 
 EXPLANATION = """
@@ -282,6 +282,25 @@ def atomic_idiom(res: Result, target_param: str) -> Tuple[bool, str, dict]:
         opens = [e for e in res.of_kind("call")
                  if e.data.get("name") == "os.fdopen"]
     if not opens:
+        # tempfile.NamedTemporaryFile(delete=False): the handle is the temp
+        # file, its .name the path that is moved in place
+        ntf = [e for e in res.of_kind("call")
+               if e.data.get("name") == "tempfile.NamedTemporaryFile" and
+               any(x is e.data["result"] for x in tmp.walk())]
+        for e in ntf:
+            kw = dict(e.data["kwargs"])
+            if not tm.is_const(kw.get("delete", const(True)), False):
+                return False, "NamedTemporaryFile without delete=False: the " \
+                              "file vanishes on close, nothing to move in " \
+                              "place", facts
+            mode = kw.get("mode", e.data["args"][0] if e.data["args"]
+                          else const("w+b"))
+            if not (tm.is_const(mode) and any(
+                    c in str(tm.const_val(mode)) for c in "wax+")):
+                return False, "temporary file is not opened for writing", \
+                    facts
+        opens = ntf
+    if not opens:
         return False, "no write to the temporary file found", facts
     # handle closed before the replace: with-exit or .close() precedes
     for o in opens:
@@ -309,6 +328,7 @@ def check(ctx):
 
     # ------------------------------------------------------------ C19.1
     atomic_funcs: Dict[str, str] = {}
+    broken_idiom = 0
     for (fq, pname) in sorted(cap.params):
         res = results.get(fq)
         if res is None:
@@ -319,7 +339,14 @@ def check(ctx):
             ctx.ob("C19.1", res.func, True,
                    f"{fq}({pname}) implements the atomic-replace idiom: "
                    f"{why}", key=f"C19.1:atomic:{fq}", **facts)
-    nsinks = 0
+        elif not why.startswith("no os.replace"):
+            # it moves a temporary file onto the target, but not safely
+            broken_idiom += 1
+            ctx.ob("C19.1", res.func, False,
+                   f"{fq}({pname}) replaces the target by a temporary file, "
+                   f"but {why}: a reader (or a crash) can meet an empty or "
+                   f"partial file", key=f"C19.1:atomic:{fq}", **facts)
+    nsinks = broken_idiom
     for q, res in sorted(results.items()):
         sinks = list(find_sinks(res))
         # .truncate() on a handle opened on a capable path
@@ -555,7 +582,8 @@ def check(ctx):
                    live=fmt(w.live))
     # reads of version/settings only after own initialisation: C19.3 order.
     rd = [e for e in r.of_kind("call")
-          if e.data.get("name") == "builtins.open" and
+          if e.data.get("name") in ("builtins.open", ".open", ".read_text",
+                                    ".read_bytes", "json.load") and
           not any(e is s[0] for s in find_sinks(r))]
     ctx.ob("C19.4", upd, len(rd) >= 1,
            "update_if_outdated reads version/settings (after the caller's "
